@@ -1,5 +1,5 @@
 """Property -> harnesses registry."""
-import h_doc, h_c13, h_lib, h_squash, h_pos, h_paths, h_titles, h_actions, h_events, h_server, h_router
+import h_doc, h_c13, h_lib, h_squash, h_pos, h_paths, h_titles, h_actions, h_events, h_server, h_router, h_render
 
 def doc(prog, tier):
     return h_doc.DocHarness(prog, tier)
@@ -57,6 +57,11 @@ PATHS_SPEC = {'make': lambda prog, tier: h_paths.PathsHarness(prog, tier), 'time
 
 TITLES_SPEC = {'make': lambda prog, tier: h_titles.TitlesHarness(prog, tier), 'time_limit': {'quick': 300, 'thorough': 600}}
 
+WRITER_NOTE = ('writer: the real blocks_to_markdown_sparce / GraphBlock::to_markdown / is_sparce_list / left_pad_and_prefix(_num) executed from MIR on block trees '
+               'of the Projector\'s range; its text is read back by a reference reader (CommonMark block structure, mirsym/mdref.py) and must be the tree that was written; '
+               'item numbers of top-level and quoted ordered lists are symbolic (digit count split by the solver); the reference reader is validated against the real '
+               'reader on sampled / all paths and every violation is replayed through the real writer and the real reader; inline mark-up and escaping are outside')
+RENDER_SPEC = {'make': lambda prog, tier: h_render.RenderHarness(prog, tier), 'time_limit': {'quick': 300, 'thorough': 1500}, 'tv_max': 600}
 SERVER_SPEC = {'make': lambda prog, tier: h_server.ServerHarness(prog, tier), 'time_limit': {'quick': 420, 'thorough': 1800}, 'crates': ('liwe', 'iwes')}
 ROUTER_SPEC = {'make': lambda prog, tier: h_router.RouterHarness(prog, tier), 'time_limit': {'quick': 300, 'thorough': 600}, 'crates': ('liwe', 'iwes')}
 EVENTS_SPEC = {'make': lambda prog, tier: h_events.EventsHarness(prog, tier), 'time_limit': {'quick': 300, 'thorough': 900}}
@@ -77,7 +82,7 @@ PROPS = {
         'stubbed to the real Projector output and Url modelled natively (parse / join / to_string on ASCII names); notes in the library root plus one sub-directory note',
         'the emitted text, percent-encoding of unusual file names (C14) and sub-directory rename sites are outside']},
     'C09': {'specs': [ACTIONS_SPEC], 'notes': ACT_NOTES},
-    'C10': {'specs': [ACTIONS_SPEC, ACTIONS_LISTS_SPEC], 'notes': ACT_NOTES},
+    'C10': {'specs': [ACTIONS_SPEC, ACTIONS_LISTS_SPEC, RENDER_SPEC], 'notes': ACT_NOTES + [WRITER_NOTE]},
     'C11': {'specs': [ROUTER_SPEC], 'notes': COMMON + [
         'the schedule enters through one symbolic variable: how many clones of the router\'s Arc<Server> are alive (one per in-flight request worker) when the loop thread '
         'handles the notification; fairness assumption: every worker terminates (while the loop thread sleeps, workers finish one by one); claimed for the loop-thread step '
@@ -107,8 +112,8 @@ PROPS = {
         'line_starts over strings given by their line structure (symbolic line lengths, LF / CRLF / missing final newline), std str::lines / '
         'split_inclusive / split / len modelled on that structure',
         'which byte ranges pulldown-cmark reports for a block (e.g. a last line without newline) and UTF-16 vs byte columns are outside the claim']},
-    'C01': {'specs': DOC_ALL + [LIB_META_SPEC, EVENTS_SPEC, TITLES_SPEC], 'notes': COMMON + ['claimed at block level: every block/token of the input appears once, in order, in the same container, same kind']},
+    'C01': {'specs': DOC_ALL + [LIB_META_SPEC, EVENTS_SPEC, TITLES_SPEC, RENDER_SPEC], 'notes': COMMON + [WRITER_NOTE, 'claimed at block level: every block/token of the input appears once, in order, in the same container, same kind']},
     'C03': {'specs': DOC_ALL + [POSB_SPEC, EVENTS_SPEC], 'notes': COMMON + ['claimed for blocks -> graph -> tree -> projection: every compiler-emitted panic edge / unwrap / expect / explicit panic reachable within the bounds is a violation']},
-    'C07': {'specs': DOC_ALL + [KANI_C07], 'notes': COMMON + ['heading levels are symbolic u8 in 1..6; laws: order kept, emitted outline well nested, well-nested input keeps its levels, blocks stay under the nearest preceding heading']},
+    'C07': {'specs': DOC_ALL + [RENDER_SPEC, KANI_C07], 'notes': COMMON + [WRITER_NOTE, 'heading levels are symbolic u8 in 1..6; laws: order kept, emitted outline well nested, well-nested input keeps its levels, blocks stay under the nearest preceding heading']},
     'C20': {'specs': DOC_ALL + [LIB_SPEC], 'notes': COMMON + ['representation invariant checked on every arena produced within the bounds (establish step) and after every update_key step of the library harness (preserve step: RI, ids never reused, other notes untouched)']},
 }
